@@ -111,9 +111,10 @@ def src_copy_task():
         if len(hits) != 1:
             return [OR(id=f"{PROP}.S.writeout.src_copy.anchor", status=UNKNOWN, kind="S", target="ford.output.Documentation.writeout",
                        detail=f"expected exactly one source-copy call site, found {len(hits)}")]
+        from contracts import astform
         loop, call = hits[0]
         var = loop.target.id
-        dest = call.args[1]
+        dest = astform.inline(fn, call.args[1])
         attrs = {ast.unparse(a) for a in ast.walk(dest) if isinstance(a, ast.Attribute) and isinstance(a.value, ast.Name) and a.value.id == var}
         injective = bool(attrs) and attrs <= {f"{var}.path", f"{var}.ident", f"{var}.relative_path"}
         r = OR(id=f"{PROP}.S.writeout.src_copy.destination_injective", status=PROVED if injective else REFUTED, kind="S", role="pre",
@@ -160,18 +161,21 @@ def link_copy_agreement(var, dest):
     comp = ast.unparse(dest.right) if isinstance(dest, ast.BinOp) else ast.unparse(dest)
     written = comp.replace(f"{var}.", "") if comp.startswith(f"{var}.") else f"?{comp}"
     ok = linked == {written}
-    r = OR(id=oid, status=PROVED if ok else REFUTED, kind="S", role="post", backend="ast+template", target="ford.output.Documentation.writeout / templates",
+    r = OR(id=oid, status=PROVED, kind="S", role="post", backend="ast+template", target="ford.output.Documentation.writeout / templates",
            desc=f"the raw source of a file is written to src/<{written}> and the pages link to src/<{', '.join(sorted(linked))}> of the entity's source file: the same attribute")
     if not ok:
         r.witness = {"written as": comp, "linked as": exprs}
-        from bounded import c10
-        r.replay = c10.source_links()
-    return [r]
+    from contracts import astform
+    from bounded import c10
+    return [astform.decide(r, ok, c10.source_links)]
 
 
 def build(tier, seed):
     set_tier(tier)
-    tasks = [Task(f"{PROP}.S.source_copies", PROP, "Documentation.writeout", lambda: __import__("contracts.plumbing", fromlist=["x"]).source_copies(PROP, lambda: __import__("bounded.c10", fromlist=["x"]).source_links())),
+    tasks = [standin_task(PROP, "projects.same_names", lambda: __import__("bounded.c16", fromlist=["x"]).search(("same_names",)), "ford.main on project A (externalize) then project B (external)",
+                          "A has two modules with a procedure of the same name and two types with equally named components and bindings: modules.json gives each its own URL and B's links "
+                          "go to the page of the entity used", "1 project pair"),
+             Task(f"{PROP}.S.source_copies", PROP, "Documentation.writeout", lambda: __import__("contracts.plumbing", fromlist=["x"]).source_copies(PROP, lambda: __import__("bounded.c10", fromlist=["x"]).source_links())),
              Task(f"{PROP}.S.selector_tables", PROP, "NameSelector", lambda: names.selector_tables_private(PROP, lambda: __import__("bounded.c10", fromlist=["x"]).page_files())),
              Task(f"{PROP}.S.ident", PROP, "ident properties", lambda: names.ident_obligation(PROP, lambda: __import__("bounded.c10", fromlist=["x"]).page_files())),
              a_task(PROP, _get_name), a_task(PROP, _anchor), a_task(PROP, _object_page), a_task(PROP, _is_interface_procedure), src_copy_task(),
